@@ -20,6 +20,9 @@ RULE = ("correspondence: (a) the character-level model of RE_FLOW.subn vs html_t
         "real option parser equal the attribute values; non-trivial = value needing quotes / text with a filtered tag / "
         "block with >= 2 top-level elements")
 TRUSTED = ["coq/Html/HtmlToNodes.v is a hand transcription of html_to_nodes / option_line (checked by correspondence, not proved)",
+           "gen/pysrc.py + gen/c17_src.py (statement-by-statement source translation of option_line / default_html / html_to_nodes) "
+           "with the domain mapping listed in gen/c17_src.py's docstring and coq/Html/NodesPrims.v (renderer flags = booleans, "
+           "nodes.raw = ORaw, run_directive call = directive record, x.render() = the modelled render, text-matched regex calls)",
            "Python re: RE_FLOW's structure is read with re._parser and the per-letter IGNORECASE classes and \\s are computed with re itself",
            "markdown-it-py's html_block / html_inline tokenisation is taken as given (the property starts at the HTML token)",
            "docutils image/admonition directive classes and option converters are the same on both sides of the metamorphic comparison"]
@@ -46,6 +49,13 @@ def gen(ctx):
     text, info = c17_nodes.generate(REPO)
     write_if_changed(COQ / "Gen" / "HtmlNodes.v", text)
     ctx.gen_info["Gen/HtmlNodes.v"] = info
+    from gen import c16_src, c17_src
+    text, info = c16_src.generate(REPO)
+    write_if_changed(COQ / "Gen" / "HtmlSrc.v", text)
+    ctx.gen_info["Gen/HtmlSrc.v"] = info
+    text, info = c17_src.generate(REPO)
+    write_if_changed(COQ / "Gen" / "HtmlNodesSrc.v", text)
+    ctx.gen_info["Gen/HtmlNodesSrc.v"] = info
     ctx.gen_info["sources"] = src_hashes(SOURCES)
 
 
@@ -273,7 +283,7 @@ def corr(ctx):
     rng = ctx.rng
     # (a) GFM filter: model vs the real call (both extensions off, gfm_only on)
     texts = list(small_strings(GFM_SMALL, ctx.budget(5, 6, 6)))
-    texts += [gen_gfm_text(rng) for _ in range(ctx.budget(20000, 120000, 120000))]
+    texts += [gen_gfm_text(rng) for _ in range(ctx.budget(10000, 120000, 120000))]
     texts = list(dict.fromkeys(texts))
     outs = model_run_parallel(PID, ["gfm\t" + enc_str(t) for t in texts])
     for t, o in zip(texts, outs):
@@ -290,7 +300,7 @@ def corr(ctx):
     ctx.sample({"gfm_text": texts[len(texts) // 2]})
     # (b) option_line
     vals = [None] + list(small_strings(VAL_ALPHA, ctx.budget(2, 3, 3)))
-    vals += [rand_value(rng) for _ in range(ctx.budget(20000, 100000, 100000))]
+    vals += [rand_value(rng) for _ in range(ctx.budget(8000, 100000, 100000))]
     vals = list(dict.fromkeys(vals))
     outs = model_run_parallel(PID, ["optline\t%s\t%s" % (enc_str("alt"), enc_ostr(v)) for v in vals])
     for v, o in zip(vals, outs):
@@ -348,7 +358,7 @@ def corr(ctx):
     ctx.oracle_tests["O_option_tokenizer"] = len(blocks)
     # (c) html_to_nodes decision logic
     cases, lines = [], []
-    for i in range(ctx.budget(6000, 40000, 40000)):
+    for i in range(ctx.budget(4000, 40000, 40000)):
         text, label = gen_block(rng)
         img, adm, gfm = rng.random() < 0.75, rng.random() < 0.75, rng.random() < 0.3
         if i % 11 == 0:
